@@ -150,15 +150,17 @@ def fam_cv_rsignal(rng):
 
 
 def fam_starve(rng):
-    """A victim locker among many barging threads that lock/unlock repeatedly (C14): victim writer among
-    writers, writer among readers, reader among writers."""
-    kind = rng.choice(["ww", "wr", "rw"])
+    """A victim locker (fiber 0) among barging threads that lock/unlock repeatedly (C14): victim writer among
+    writers, writer among readers, reader among writers.  Run under the adversarial strategy 4 (the victim is
+    scheduled only while somebody holds the mutex, so each of its retries loses the race) as well as randomly."""
+    kind = rng.choice(["ww", "wr", "rw", "wt", "wt", "wq", "rt"])     # t: try-lock bargers (never block), q: rtrylock bargers
     lines = ["sem %s" % rng.choice(["counting", "binary"]), "objs mu=1 var=1", "var x0 0 mu0"]
     lines.append("fiber yield ; %s mu0 ; %s mu0" % (("lock", "unlock") if kind[0] == "w" else ("rlock", "runlock")))
     for _ in range(rng.choice([3, 4, 5])):
-        acq, rel = ("lock", "unlock") if kind[1] == "w" else ("rlock", "runlock")
-        n = rng.choice([6, 10, 14])
+        acq, rel = {"w": ("lock", "unlock"), "r": ("rlock", "runlock"), "t": ("trylock", "unlock_if"), "q": ("rtrylock", "runlock_if")}[kind[1]]
+        n = rng.choice([30, 45, 60])
         lines.append("fiber " + " ; ".join(["%s mu0 ; yield ; %s mu0" % (acq, rel)] * n))
+    lines.append("#strategy4")
     return lines
 
 
@@ -237,8 +239,12 @@ def make_batch(path, seed, plan):
         for fam, ns, ne in plan:
             for _ in range(ns):
                 lines = FAMILIES[fam](rng)
+                ex = execs(rng, ne)
+                if "#strategy4" in lines:      # half of the schedules of this scenario are adversarial
+                    lines = [l for l in lines if l != "#strategy4"]
+                    ex = [e.replace("strategy=%s" % e.split("strategy=")[1].split()[0], "strategy=4") if i % 2 == 0 else e for i, e in enumerate(ex)]
                 blocks.append((fam, lines))
-                f.write("\n".join(lines) + "\n" + "\n".join(execs(rng, ne)) + "\n---\n")
+                f.write("\n".join(lines) + "\n" + "\n".join(ex) + "\n---\n")
     return blocks
 
 
